@@ -289,6 +289,16 @@ let run_mgr toks =
           (* the shard's identity: 32 bytes made from its index (two groups never serialize to the same bytes in generated cases) *)
           step (MRegister { sh_hash = List.init 32 (fun _ -> n_of_int i); sh_key = k; sh_cass = cass }) end;
         None
+      | ["RB"; l] ->
+        (* one call with several files: `RB i:mtime,j:mtime,..` in argument order *)
+        let items = List.filter_map (fun x -> match String.split_on_char ':' x with
+            | [i; mt] -> let i = int_of_string i in
+              if i < Array.length shards then begin
+                let (k, cass) = shards.(i) in
+                Some (n_of_string mt, { sh_hash = List.init 32 (fun _ -> n_of_int i); sh_key = k; sh_cass = cass }) end
+              else None
+            | _ -> None) (String.split_on_char ',' l) in
+        List.iter (fun s -> step (MRegister s)) (batch_order items); None
       | "A" :: _ -> step (MAddCas (parse_cas_op op)); None
       | ["FL"] -> step MFlush; None
       | ["qd"; l] ->
